@@ -18,11 +18,16 @@ MUT_CALLS = {
               dict(op="create", path="a/b/c/nl", kind="lnk", target="../../e"), dict(op="create", path="a/b/hl", kind="hard", target="a/b/c/f"),
               dict(op="create_file", path="a/b/c/newf", oflags=O["RDWR"], mode=0o600), dict(op="mkdir_all", path="a/b/c/x/y", mode=0o755),
               dict(op="mkdir_all", path="a/new/x", mode=0o755), dict(op="remove_file", path="a/b/c/f"), dict(op="remove_dir", path="a/b/c"),
+              # a missing component followed by "..": the attacker creates it between two attempts of the partial lookup
+              dict(op="mkdir_all", path="nx/../../pwned", mode=0o755), dict(op="mkdir_all", path="a/nx/../../../pwned", mode=0o755), dict(op="mkdir_all", path="a/b/nx/../../../../out/pw", mode=0o755),
               dict(op="remove_all", path="a/b"), dict(op="rename", src="a/b/c/f", dst="e/g", flags=0), dict(op="rename", src="a/b", dst="e/b2", flags=0)],
     "links": [dict(op="create", path="la/c/new", kind="file", mode=0o644), dict(op="create_file", path="ldd/newf", oflags=O["RDWR"], mode=0o600),
               dict(op="mkdir_all", path="la/c/x/y", mode=0o755), dict(op="mkdir_all", path="a/b/up/e/z", mode=0o755), dict(op="remove_file", path="ldd/f"),
               dict(op="remove_all", path="la/c"), dict(op="rename", src="la/c/f", dst="a/b/up/e/g", flags=0)],
 }
+
+
+R = race.R
 
 
 def main(tier_):
@@ -38,6 +43,10 @@ def main(tier_):
     # ---- (M) mkdir_all with an attacker (Mkdir2.tla): the known finding F-C03-mkdir-all-below-new-dir is a property of the
     #      design (TLC: MutationsInside violated after one attacker rename), not of one backend
     mk2 = run_tlc("MC_Mkdir2.tla", "MC_Mkdir2_attack.cfg", workers=8, timeout=600)
+    # ... and the ".." refusal in the not-yet-existing tail: with an attacker who creates the component the partial
+    # lookup found missing, mkdir_all("a/nx/../../../pwned") stays inside only because of it (removed: MutationsInside fails)
+    dd_on = run_tlc("MC_Mkdir2.tla", "MC_Mkdir2_dotdot.cfg", workers=4, timeout=600)
+    dd_off = run_tlc("MC_Mkdir2.tla", "MC_Mkdir2_dotdot_removed.cfg", workers=4, timeout=600)
     # ---- static: the spellings whose final name is a dot name or that go through escaping links, traced
     gen = run_tlc("MC_RootOps.tla", "MC_C14_%s_gen.cfg" % tier_, workers=8, timeout=3000)
     trees, gcases = {}, []
@@ -95,6 +104,13 @@ def main(tier_):
             if e.get("ev") == "sys" and e.get("nr") in ("mkdirat", "mknodat", "symlinkat") and e.get("ret") == 0 and e.get("dfd_class") == "tree" and e.get("dfd_id", 0) and e.get("dfd_id") <= 30:
                 for (sp, sn) in ((20, "l_out"), (20, "d"), (20, "l_abs")):
                     acts.append(dict(act="exchange", sp=e["dfd_id"], sn=e["path"], dp=sp, dn=sn, prio=1))
+        # a component the lookup finds missing appears (the attacker creates it inside the root)
+        comps = (call.get("path") or "").split("/")
+        if call["op"] == "mkdir_all" and "nx" in comps:
+            par = R
+            for cpt in comps[:comps.index("nx")]:
+                par = next((n["id"] for n in nodes if n["p"] == par and n["n"] == cpt), par)
+            acts.append(dict(act="mkdir", p=par, n="nx", prio=1))
         # growing a moved-out directory: the attacker also creates the next component outside
         sweep += race.make_sweep(tname, nodes, call, feat, n_rel, acts, pairs=False)
         if call["op"] == "mkdir_all":
@@ -124,7 +140,8 @@ def main(tier_):
     cov = dict(states=max(gen["distinct"], 1) + stats["trace_states"], transitions=max(gen["states"], 1) + stats["events"], traces_validated_against_impl=stats["traces"], samples=samples,
                evaluations=len(cases), distinct_nontrivial=stats["attack_fired"] + len(static_cases),
                rule="case = static dot-name/escaping spelling (TLC-generated) or (race tree, mutating call, backend, attacker action(s), boundary); non-trivial = attacker mutation took effect, or the spelling ends in '.'/'..' / goes through an escaping link",
-               exhaustive=False, design_invariant_violated=design["violated"], mkdir_all_with_attacker_model=dict(violated=mk2["violated"], states=mk2["distinct"], note="expected: MutationsInside (known finding F-C03-mkdir-all-below-new-dir at design level)"), static_cases=len(static_cases), sweep_space=stats["sweep_space"], sweep_executed=len(sweep),
+               exhaustive=False, design_invariant_violated=design["violated"], mkdir_all_dotdot_tail_model=dict(with_refusal=dd_on["violated"], states=dd_on["distinct"], complete=dd_on["complete"], refusal_removed=dd_off["violated"]),
+               mkdir_all_with_attacker_model=dict(violated=mk2["violated"], states=mk2["distinct"], note="expected: MutationsInside (known finding F-C03-mkdir-all-below-new-dir at design level)"), static_cases=len(static_cases), sweep_space=stats["sweep_space"], sweep_executed=len(sweep),
                attack_fired=stats["attack_fired"], kernel_model_mismatches=stats["kmm"], kmm_samples=stats.get("kmm_samples", [])[:3],
                outcomes={k: n for k, n in stats.items() if k.startswith("outcome_")}, abnormal=stats["abnormal"], build_s=round(build_s, 1))
     write_evidence("C03", tier_, "model_checking", cov, ASSUME, wall, len(v.violations))
